@@ -301,18 +301,15 @@ Proof.
   unfold G, do_rescale. pose proof (T_refl s) as T0.
   destruct (getobj s p) as [[j [a d m tl nseg kind| |]]|] eqn:Eo; try gfl.
   destruct (dcopy s a d m) as [s1 [[a1 d1] m1]] eqn:Ec. destruct (T_dcopy _ _ _ _ _ _ _ _ _ _ _ T0 Ec) as (T1 & Ha1 & Hd1 & Hm1).
-  red1.
-  assert (exists s2 a2, (if scalar s1 a1 then (s1, a1) else alloc1 s1 (kf K 30 [valof s1 a1] [])) = (s2, a2)
-          /\ T s s2 [] [] /\ (length (hp s) <= a2 < length (hp s2))%nat /\ (length (hp s1) <= length (hp s2))%nat)
-    as (s2 & a2 & -> & T2 & Ha2 & L2).
-  { destruct (scalar s1 a1); [do 2 eexists; split; eauto; split; auto; lens; lia|]. destruct (alloc1 s1 _) as [s2 a2] eqn:E.
-    destruct (T_alloc1 _ _ _ _ _ _ _ T1 E) as (? & ? & ?). do 2 eexists; split; eauto. split; auto. lens. lia. }
+  red1. talloc T1 s2 a2 T2.
+  assert (length (hp s) <= a2 < length (hp s2))%nat as Ha2 by (lens; lia).
+  assert (length (hp s1) <= length (hp s2))%nat as L2 by lia.
   red1.
   assert (exists s3 d2, (if scalar s2 d1 then (s2, d1) else alloc1 s2 (kf K 31 [valof s2 d1] [])) = (s3, d2)
           /\ T s s3 [] [] /\ (length (hp s) <= d2 < length (hp s3))%nat /\ (length (hp s2) <= length (hp s3))%nat)
     as (s3 & d2 & -> & T3 & Hd2 & L3).
-  { destruct (scalar s2 d1); [do 2 eexists; split; eauto; split; auto; lens; lia|]. destruct (alloc1 s2 _) as [s3 d2] eqn:E.
-    destruct (T_alloc1 _ _ _ _ _ _ _ T2 E) as (? & ? & ?). do 2 eexists; split; eauto. split; auto. lens. lia. }
+  { destruct (scalar s2 d1); [do 2 eexists; split; eauto; split; auto; lens; lia|]. destruct (alloc1 s2 _) as [s3 d2] eqn:E3.
+    destruct (T_alloc1 _ _ _ _ _ _ _ T2 E3) as (? & ? & ?). do 2 eexists; split; eauto. split; auto. lens. lia. }
   red1. talloc T3 s4 m2 T4. tpush T4 s5 j5 T5. gret.
 Qed.
 
@@ -407,8 +404,8 @@ Qed.
 
 Lemma main_good s o cvs : G s o (main K s o cvs).
 Proof.
-  destruct o as [len frozen|r|kind amp opd mask nseg|p a|p a|p inplace|p|p| |p w|w z keys|w scratch|w out|w intensity
-                |f k out inverse params|code args params|code args|wv vl|s0|s1 s2|s0 flux|s0|s0 wv]; cbn [main].
+  destruct o as [len frozen|r|kind amp opd mask nseg|p a|p a|p inplace|p|p|wt|p w|w z keys|w scratch|w out|w intensity
+                |f k out inverse params|code args params|code args|wv vl|s0|s1 s2|s0 flux|s0|s0 wv|p k|w t]; cbn [main].
   - (* ONewArr *) unfold G.
     change (good s [] [] (fst (ret (with_hp s (hp s ++ [mkcell (repeat 0 len) frozen])) [] [] (VArr (length (hp s)))))
                          (snd (ret (with_hp s (hp s ++ [mkcell (repeat 0 len) frozen])) [] [] (VArr (length (hp s)))))).
@@ -468,6 +465,21 @@ Proof.
     apply G_spec_edit; [reflexivity|]. intros w v Vw Vv. pose proof (T_refl s) as T0.
     destruct (alloc1 s _) as [sa i] eqn:Ea. destruct (T_alloc1 _ _ _ _ _ _ _ T0 Ea) as (T1 & Hi & L1).
     cbn [fst snd]. split; auto. sc.
+  - (* OPokeAttr *) unfold G. pose proof (T_refl s) as T0.
+    destruct (getobj s p) as [[j o]|] eqn:Eo; [|gfl].
+    cbn [documented]. rewrite Eo.
+    destruct (nth_error (oslots o) k) as [a|] eqn:Ek; [|gfl].
+    assert (In a (visible s)) as Va by (apply (getobj_visible _ _ _ _ Eo); eapply nth_error_In; eauto).
+    destruct (wr s a _) as [s1|] eqn:W; [|gfl].
+    destruct (T_wr _ _ _ _ _ _ _ T0 W) as (T1 & L1). gret.
+  - (* OMulTilt *) unfold G. pose proof (T_refl s) as T0.
+    destruct (getobj s w) as [[jw [| fs |]]|] eqn:Ew; try gfl.
+    destruct (alloc_list s _) as [s1 ids] eqn:E1. destruct (T_alloc_list _ _ _ _ _ _ _ T0 E1) as (T1 & Hids & L1). red1.
+    destruct (push_obj s1 _) as [s2 j2] eqn:E2. red1.
+    destruct (T_push_obj _ _ _ _ _ _ _ T1 E2) as (T2 & _ & L2).
+    { cbn. intros i Hi. right. rewrite map_map in Hi. cbn in Hi. apply in_map_iff in Hi as ((x & y) & <- & Hx).
+      cbn. apply in_combine_l in Hx. subst ids. apply in_seq in Hx. lia. }
+    gret.
 Qed.
 
 End Ops.
@@ -604,6 +616,8 @@ Proof.
   - destruct scratch as [r|]; cbn; try tauto. destruct (getarr s r) eqn:E; cbn; try tauto. intros [<-|[]]. eapply getarr_visible; eauto.
   - destruct (getarr s out) eqn:E; cbn; try tauto. intros [<-|[]]. eapply getarr_visible; eauto.
   - destruct out as [r|]; cbn; try tauto. destruct (getarr s r) eqn:E; cbn; try tauto. intros [<-|[]]. eapply getarr_visible; eauto.
+  - destruct (getobj s p) as [[j o]|] eqn:E; cbn; try tauto. destruct (nth_error (oslots o) slot) as [a|] eqn:Ek; cbn; try tauto.
+    intros [<-|[]]. apply (getobj_visible _ _ _ _ E). eapply nth_error_In; eauto.
 Qed.
 
 (* phase 2 keeps the invariant *)
